@@ -283,12 +283,13 @@ func vfYAMLPath(p []vfStep) string {
 type c15Case struct {
 	Lang  string `json:"lang"` // json | yaml
 	Doc   string `json:"doc"`
-	Path  int    `json:"path"`  // index into the document's path list
-	Path2 int    `json:"path2"` // second matcher's path (-1 none)
-	Kind  string `json:"kind"`  // any | type | custom
-	PH    int    `json:"ph"`    // placeholder index
-	Bytes bool   `json:"bytes"` // pass the input as []byte
-	Via   string `json:"via"`   // direct (matcher method) | api (MatchJSON / MatchYAML)
+	Path  int    `json:"path"`           // index into the document's path list
+	Path2 int    `json:"path2"`          // second matcher's path (-1 none)
+	Kind  string `json:"kind"`           // any | type | custom
+	PH    int    `json:"ph"`             // placeholder index
+	Bytes bool   `json:"bytes"`          // pass the input as []byte
+	Via   string `json:"via"`            // direct (matcher method) | api (MatchJSON / MatchYAML)
+	Wild  string `json:"wild,omitempty"` // kind wild*: a gjson path with `#` components (every element of a list)
 }
 
 var c15PH = []any{"s", "<Any value>", strings.Repeat("long-placeholder-", 4), 7, nil, map[string]any{"k": 1}, []any{1, "x"}, true, "with \"quotes\" and \n newline",
@@ -430,6 +431,95 @@ func c15Gen(c *vfCtx, emit func(c15Case)) {
 		c.bound(lang+"_paths", npaths)
 	}
 	c.bound("placeholders", len(c15PH))
+	// paths through every element of a list (gjson `#`), one and two levels, lists whose elements do not all have the key
+	for _, w := range [][2]string{
+		{`{"items":[{"id":1},{"id":2}],"k":0}`, "items.#.id"},
+		{`{"items":[{"id":1,"n":"a"},{"x":0},{"id":[3],"n":"c"}],"id":"top"}`, "items.#.id"},
+		{`{"items":[{"x":0},{"id":null}]}`, "items.#.id"},
+		{`[{"id":1},{"id":2}]`, "#.id"},
+		{`{"groups":[{"users":[{"id":1},{"id":2}]},{"users":[{"id":3}]}],"k":0}`, "groups.#.users.#.id"},
+		{`{"m":[[{"id":1}],[{"id":2},{"id":3}]]}`, "m.#.#.id"},
+	} {
+		for _, kind := range []string{"wildany", "wildcustom"} {
+			emit(c15Case{Lang: "json", Doc: w[0], Wild: w[1], Kind: kind, Path2: -1, Via: "direct"})
+		}
+	}
+}
+
+// c15WildExpect replaces, in a decoded document, the value at every place the `#` path reaches.
+func c15WildExpect(v any, segs []string, ph any) any {
+	if len(segs) == 0 {
+		return ph
+	}
+	switch x := v.(type) {
+	case []any:
+		if segs[0] != "#" {
+			return v
+		}
+		out := make([]any, len(x))
+		for i, e := range x {
+			out[i] = c15WildExpect(e, segs[1:], ph)
+		}
+		return out
+	case map[string]any:
+		e, ok := x[segs[0]]
+		if !ok {
+			return v
+		}
+		out := map[string]any{}
+		for k, w := range x {
+			out[k] = w
+		}
+		out[segs[0]] = c15WildExpect(e, segs[1:], ph)
+		return out
+	}
+	return v
+}
+
+// c15Wild: the matcher either reports an error or yields a valid document in which exactly the reached values are replaced.
+func c15Wild(c *vfCtx, cs c15Case) {
+	c.addSet("nontrivial", vfHashJSON(cs))
+	class := ""
+	if strings.Count(cs.Wild, "#") > 1 {
+		class = "K16-two-wildcard-levels-corrupt-the-document"
+	}
+	in := []byte(cs.Doc)
+	var out []byte
+	var nerr int
+	ph := any("<Any value>")
+	if cs.Kind == "wildany" {
+		o, errs := match.Any(cs.Wild).JSON(in)
+		out, nerr = o, len(errs)
+	} else {
+		ph = "<c>"
+		o, errs := match.Custom(cs.Wild, func(any) (any, error) { return "<c>", nil }).JSON(in)
+		out, nerr = o, len(errs)
+	}
+	c.count("transitions", 1)
+	if string(in) != cs.Doc {
+		c.violation(class, fmt.Sprintf("%s(%q) modified the bytes it was given: %q", cs.Kind, cs.Wild, in), cs)
+		return
+	}
+	c.outcome(fmt.Sprintf("wild:errors=%d", nerr))
+	c.addSet("states", vfHash(string(out), fmt.Sprint(nerr)))
+	if nerr > 0 {
+		return // reporting an error is one of the two allowed answers
+	}
+	var got, want any
+	if err := json.Unmarshal(out, &got); err != nil {
+		c.violation(class, fmt.Sprintf("%s(%q) on %s reports no error and yields %q, which is not a JSON document (%v)", cs.Kind, cs.Wild, cs.Doc, vfClip(string(out)), err), cs)
+		return
+	}
+	json.Unmarshal(in, &want)
+	want = c15WildExpect(want, strings.Split(cs.Wild, "."), ph)
+	if fmt.Sprint(vfDumpAny(got)) != fmt.Sprint(vfDumpAny(want)) {
+		c.violation(class, fmt.Sprintf("%s(%q) on %s yields %s; expected every reached value replaced and nothing else changed: %s", cs.Kind, cs.Wild, cs.Doc, vfClip(string(out)), vfDumpAny(want)), cs)
+	}
+}
+
+func vfDumpAny(v any) string {
+	b, _ := json.Marshal(v) // maps are written with sorted keys
+	return string(b)
 }
 
 func c15TypeMatcherJSON(v *vfNode, path string) match.JSONMatcher {
@@ -449,6 +539,10 @@ func c15TypeMatcherJSON(v *vfNode, path string) match.JSONMatcher {
 }
 
 func c15Run(c *vfCtx, cs c15Case) {
+	if strings.HasPrefix(cs.Kind, "wild") {
+		c15Wild(c, cs)
+		return
+	}
 	trees, err := c15Tree(cs.Lang, []byte(cs.Doc))
 	if err != nil {
 		c.harnessErr("C15: %v", err)
